@@ -44,6 +44,11 @@ Inductive reach (g : dag) : node -> node -> Prop :=
 | reach_refl : forall c, reach g c c
 | reach_step : forall c p a, In p (parents g c) -> reach g p a -> reach g c a.
 
+(* first-parent chain (git rev-list --first-parent) *)
+Inductive fp_reach (g : dag) : node -> node -> Prop :=
+| fp_refl : forall c, fp_reach g c c
+| fp_step : forall c p r a, parents g c = p :: r -> fp_reach g p a -> fp_reach g c a.
+
 Fixpoint reachb (g : dag) (fuel : nat) (c a : node) : bool :=
   (c =? a) ||
   match fuel with
